@@ -366,6 +366,14 @@ pub fn run(prop: &'static str, tier: &str) -> (Acc, String) {
             }
         }
     }
+    if quick && (prop == "C13" || prop == "C19") {
+        // 4 vertices with BOTH labels where the last vertex is a sink (4096 graphs): diamonds, two
+        // parents of one vertex on the same level, a vertex reached over two edges of different fate
+        for code in 0..4096 {
+            let ids: Vec<usize> = if code % 2 == 0 { (0..4).collect() } else { (0..4).map(|i| 2 * i + 1).collect() };
+            cases.push(GraphCase { n: 2, cap: 10, ops: digraph_ops(4, 2, code, false, code % 3 == 1, &[None; 4], &ids), what: format!("digraph {code} on 4 vertices, 2 labels, the last vertex a sink") });
+        }
+    }
     let small = cases.len();
     cases.extend(wide_cases());
     if prop == "C18" {
@@ -397,7 +405,7 @@ pub fn run(prop: &'static str, tier: &str) -> (Acc, String) {
     let mut acc = acc;
     acc.merge(sweep_acc);
     let rule = format!(
-        "GRAPHGEN: every digraph on 1..={nmax} vertices in which each vertex has, per label of {{α0, x}}, no edge or an edge to one of the other vertices ({} graphs incl. all cyclic shapes and shared targets), built through add/bind in up to three insertion orders (ascending, reversed, and - from 4 vertices on - every other edge first, so that groups form separately before an edge links them) on dense and on gapped ids{}{}",
+        "GRAPHGEN: every digraph on 1..={nmax} vertices in which each vertex has, per label of {{α0, x}}, no edge or an edge to one of the other vertices ({} graphs incl. all cyclic shapes and shared targets), (quick tier of C13 and C19: on 4 vertices one label, plus the 4096 two-label graphs whose last vertex is a sink) built through add/bind in up to three insertion orders (ascending, reversed, and - from 4 vertices on - every other edge first, so that groups form separately before an edge links them) on dense and on gapped ids{}{}",
         small,
         match prop {
             "C13" => "; for every start vertex: slice() and slice_some() with EVERY subset of the edge set as predicate, under EVERY drain order of slice's work-list (enumerated through the verif choice-point hook); plus wide shapes on Sodg<16> (chains, cycles, stars, bipartite graphs on 12-14 vertices, fans of 1..=16 labelled edges onto 1, 2 or 13 targets)",
